@@ -4,7 +4,7 @@ Everything is driven by the `random.Random` instance passed in, so a case replay
 WS = [b"", b"", b"", b" ", b"  ", b"\n", b"\t", b"\r\n", b" " * 30, b" " * 63, b" " * 64, b" " * 65, b" \n\t\r" * 33]
 
 KEYS = [b"a", b"b", b"c", b"key", b"", b"k" * 15, b"k" * 16, b"k" * 31, b"k" * 32, b"k" * 33, b"a\\nb", b"\\u0061", b"x\\\"y", b"[]{}:,",
-        b"\\ud83d\\ude00", b"caf\xc3\xa9", b"a b",
+        b"\\ud83d\\ude00", b"caf\xc3\xa9", b"a b", b"a\\u0000b", b"\\u0000", b"a\\u0000",
         # long keys whose escape sits in an earlier 16/32-byte block than the closing quote
         b"\\u0061" + b"b" * 40, b"q" * 20 + b"\\n" + b"r" * 30, b"\\\\" + b"z" * 33, b"k" * 31 + b"\\\"" + b"k" * 3, b"m" * 70]
 STRS = [b"", b"x", b"hello", b"a\\nb", b"\\\"", b"\\\\", b"\\/", b"\\b\\f\\r\\t", b"\\u0041", b"\\u00e9", b"\\u20ac", b"\\ud83d\\ude00",
@@ -75,7 +75,7 @@ def gen_keys(rng, n, dup=None):
 
 def decode_key(k):
     """decoded form of the few escaped spellings used in KEYS (for duplicate avoidance only)"""
-    return (k.replace(b"\\n", b"\n").replace(b"\\u0061", b"a").replace(b'\\"', b'"'))
+    return (k.replace(b"\\n", b"\n").replace(b"\\u0061", b"a").replace(b'\\"', b'"').replace(b"\\u0000", b"\x00"))
 
 
 def surrogate_pair(rng):
@@ -199,6 +199,19 @@ def number_edges():
         for d in (-1, 0, 1):
             out.append(str(base + d).encode())
             out.append(b"-" + str(base + d).encode())
+    # decimals just below a power of two (closer than a quarter ulp): the correct rounding carries out of the 53-bit significand;
+    # written with 18 and 21 significant digits, plain and exponent forms, for binades across the whole range
+    import decimal
+    ctx = decimal.Context(prec=60)
+    for k in list(range(-1021, 1024, 37)) + [-2, -1, 0, 1, 2, 3, 52, 53, 54, 62, 63, 64, 65, 1023]:
+        v = ctx.multiply(ctx.power(decimal.Decimal(2), k), ctx.subtract(decimal.Decimal(1), ctx.power(decimal.Decimal(2), -56)))
+        for nd in (18, 21):
+            t = ("%." + str(nd - 1) + "e") % v
+            m, _, e = t.partition("e")
+            out.append((m + "e" + str(int(e))).encode())
+            if -5 <= int(e) <= 20:
+                out.append(("{:f}".format(decimal.Context(prec=nd).create_decimal(v))).encode())
+                out.append(b"-" + out[-1])
     out += [b"1e308", b"1e309", b"1.8e308", b"2e308", b"1e400", b"1e-400", b"-1e309", b"0e999999", b"1e99999", b"17976931348623159e292"]
     return out
 
